@@ -320,8 +320,14 @@ def findHead (E : SubstEnv) : Nat → Option QName → QName → Option ElemDecl
     | none => none
     | some h => if h.name = exemplar then some h else findHead E fuel h.subst exemplar
 
-/-- the `while (tempType != 0 && tempType != exemplarComplexType)` loop: accumulates `devMethod` and
-    `blockConstraint`; returns `none` when the chain ends without reaching the exemplar's type -/
+/-- the `while (tempType != 0 && tempType != exemplarComplexType)` loop, statement by statement:
+      devMethod |= tempType->getDerivedBy();                       -- the derivation method of the CURRENT type `t`
+      tempType = tempType->getBaseComplexTypeInfo();               -- advance to the base `b`
+      if (tempType) blockConstraint |= tempType->getBlockSet();    -- the block set of the type ARRIVED at (`bd.block`)
+    so the block sets collected are those of the intermediate types and of the exemplar's type — never the one of
+    `anElement`'s own type; `blockConstraint` starts as the exemplar ELEMENT's block set.  Returns `none` when the
+    chain ends without reaching the exemplar's type.  Tied to the library by the correspondence `xsdsg`
+    (tools/props/c08.py, harness line `Q`): the real comparator on real declarations, every (member, exemplar) pair. -/
 def typeWalk (E : SubstEnv) : Nat → Nat → Nat → List Deriv → BlockSet → Option (List Deriv × BlockSet)
   | 0, t, ex, dev, blk => if t = ex then some (dev, blk) else none
   | fuel + 1, t, ex, dev, blk =>
